@@ -4,7 +4,7 @@
    task buffer yields exactly the reader's rows, for every demand sequence. *)
 From Coq Require Import List ZArith Bool Arith Lia.
 Import ListNotations.
-Require Import BS.C17.Model BS.C17.Lemmas BS.C17.ProofsMulti BS.C17.ProofsFlatmap BS.C17.ProofsOps.
+Require Import BS.C17.Model BS.C17.Lemmas BS.C17.ProofsMulti BS.C17.ProofsFlatmap BS.C17.ProofsOps BS.C17.ProofsFold.
 
 Section BufOut.
   Variable S : Type.
@@ -78,4 +78,69 @@ Proof.
   apply (bufout_roundtrip _ _ _ _ _ _ _ (fm_step f)); auto.
   - unfold fm_inv; simpl; discriminate.
   - unfold fm_mu, fm_phi. rewrite HR. simpl. rewrite HR in *. lia.
+Qed.
+
+(* ------------------------------------------------------------------ *)
+(* headReader over ANY upstream reader that satisfies the generic step
+   property: it asks the upstream for at most the rows still wanted, delivers
+   the first n rows of what the upstream would deliver, and ends. *)
+Section HeadOver.
+  Variable S : Type.
+  Variable read : S -> nat -> list row * status * S.
+  Variable Inv : S -> Prop.
+  Variable Rem : S -> list row.
+  Variable failing mayfail : S -> bool.
+  Variable mu : S -> nat.
+  Hypothesis Hstep : step_ok S read Inv Rem failing mayfail mu.
+
+  Lemma head_over_step :
+    step_ok (S * Z) (head_over read) (fun st => Inv (fst st))
+            (fun st => sem_head (snd st) (Rem (fst st))) (fun _ => false)
+            (fun st => mayfail (fst st)) (fun st => mu (fst st)).
+  Proof.
+    intros [u n] d o s st' HI Hd H. simpl in *. unfold head_over in H.
+    destruct (Z.leb_spec n 0) as [Hn|Hn].
+    - inversion H; subst. simpl. split; [lia|]. unfold sem_head.
+      replace (Z.to_nat n) with 0 by lia. auto.
+    - set (d' := if (n <? Z.of_nat d)%Z then Z.to_nat n else d) in *.
+      assert (Hd' : 1 <= d' /\ d' <= d /\ (Z.of_nat d' <= n)%Z).
+      { unfold d'. destruct (Z.ltb_spec n (Z.of_nat d)); lia. }
+      destruct (read u d') as [[rows s0] u'] eqn:E. inversion H; subst; clear H.
+      destruct (Hstep _ _ _ _ _ HI (proj1 Hd') E) as [Hl Hs].
+      split; [lia|]. unfold sem_head. simpl.
+      assert (Hcut : forall c, firstn (Z.to_nat n) (o ++ c) = o ++ firstn (Z.to_nat (n - Z.of_nat (length o))) c).
+      { intro c. rewrite firstn_app, firstn_all2 by lia. f_equal. f_equal. lia. }
+      destruct s.
+      + destruct Hs as (HR & HI' & _ & HM & Hlt). rewrite HR, Hcut. repeat split; auto.
+      + destruct Hs as (HR & _). rewrite HR. split; [|reflexivity]. apply firstn_all2. lia.
+      + destruct Hs as ([c Hc] & HM). split; [|exact HM]. rewrite Hc, Hcut. apply prefix_app_r.
+      + exact Hs.
+  Qed.
+
+  Theorem head_over_delivers u n ds :
+    Inv u -> demands_ok ds ->
+    delivers_gen (run (head_over read) (u, n) ds) ds (sem_head n (Rem u)) false (mayfail u).
+  Proof. intros HI H. exact (generic_delivers _ _ _ _ _ _ _ head_over_step ds (u, n) HI H). Qed.
+  Theorem head_over_progress u n ds :
+    Inv u -> demands_ok ds -> mu u < length ds ->
+    final_of (run (head_over read) (u, n) ds) <> SOk.
+  Proof. intros HI H L. exact (generic_progress _ _ _ _ _ _ _ head_over_step ds (u, n) HI H L). Qed.
+End HeadOver.
+
+(* instance: Head(n) directly over a decoded stream delivers the first n rows
+   of the stream, whatever the batch sizes and the destination sizes *)
+Theorem head_decoding_delivers s n ds :
+  demands_ok ds ->
+  delivers_gen (run (head_over dec_read) (mkDec s [] SOk, n) ds) ds
+               (sem_head n (batches_of s)) false (dec_fails s).
+Proof.
+  intro H.
+  exact (head_over_delivers _ _ _ _ _ _ _ ProofsFold.dec_step (mkDec s [] SOk) n ds eq_refl H).
+Qed.
+Theorem head_decoding_progress s n ds :
+  demands_ok ds -> ProofsFold.dmeas s < length ds ->
+  final_of (run (head_over dec_read) (mkDec s [] SOk, n) ds) <> SOk.
+Proof.
+  intros H L.
+  exact (head_over_progress _ _ _ _ _ _ _ ProofsFold.dec_step (mkDec s [] SOk) n ds eq_refl H L).
 Qed.
